@@ -62,8 +62,13 @@ class FullTranslator(Translator):
         return E(str(int(v)) if v >= 0 else '(%d)' % int(v), T_DBL)
 
     def ex_UnaryExprOrTypeTraitExpr(self, n, env):
-        if n.get('name') != 'sizeof' or 'argType' not in n:
+        if n.get('name') != 'sizeof':
             self.bad(n, '%s expression' % n.get('name'))
+        if 'argType' not in n:                       # sizeof(expression): the (unevaluated) operand's type
+            ops = [c for c in n.get('inner', []) if c and 'type' in c]
+            if len(ops) != 1:
+                self.bad(n, 'sizeof expression of unexpected shape')
+            n = dict(n, argType=ops[0]['type'])
         at = self.resolve(n['argType'], n)
         if at.kind == 'int' and at.w is not None:
             v = at.w // 8
@@ -539,6 +544,12 @@ class FullTranslator(Translator):
             self.bad(n, 'member call through %s' % me.get('kind'))
         obj = self.ex(me['inner'][0], env)
         args = [self.ex(a, env) for a in n['inner'][1:]]
+        if obj.ty.kind == 'ostr':
+            if me.get('name') in ('size', 'length') and not args:
+                return E('(%s.length : Int)' % paren(obj.term), Ty('int', 64, False), obj.defd)
+            if me.get('name') == 'empty' and not args:
+                return E('%s.isEmpty' % paren(obj.term), T_BOOL, obj.defd)
+            self.bad(n, 'output string member %s read inside an expression (only size() / empty() may read an output string)' % me.get('name'))
         if obj.ty.kind == 'vec':
             if me.get('name') == 'size' and not args:
                 return E('%s.size' % paren(obj.term), Ty('int', 64, False), obj.defd)
